@@ -267,15 +267,16 @@ def concat_traces(paths, out):
     return n
 
 
-def validate_trace(spec_module, trace_file, strict=True, timeout=600, tag="tv", max_tid=64):
+def validate_trace(spec_module, trace_file, strict=True, timeout=600, tag="tv", max_tid=64, leak=False):
     """Run TLC on a (concatenated) trace.  Accepted iff NotAccepted is violated."""
     base = {"TraceCompress": ["Compress.tla", "TraceCompress.tla"],
             "TraceExpand": ["Expand.tla", "TraceExpand.tla"]}[spec_module]
     d = spec_workdir(tag, base)
     with open(os.path.join(d, "T.cfg"), "w") as f:
-        f.write("SPECIFICATION Spec\nCONSTANTS Strict = %s\n MaxTid = %d\n"
+        f.write("SPECIFICATION Spec\nCONSTANTS Strict = %s\n MaxTid = %d\n%s"
                 "INVARIANTS TraceInv NotAccepted\nCHECK_DEADLOCK FALSE\n"
-                % ("TRUE" if strict else "FALSE", max_tid))
+                % ("TRUE" if strict else "FALSE", max_tid,
+                   (" CheckLeak = %s\n" % ("TRUE" if leak else "FALSE")) if spec_module == "TraceExpand" else ""))
     n = sum(1 for _ in open(trace_file))
     r = tlc(d, spec_module + ".tla", "T.cfg", env={"TRACE": trace_file}, workers=1, timeout=timeout)
     accepted = "NotAccepted" in r.violated and r.violated == ["NotAccepted"]
